@@ -60,26 +60,94 @@ func (e *ColEnum) parse(t ColumnType) error {
 	}
 
 	elements := t.Elem().String()
-	for _, elem := range strings.Split(elements, ",") {
-		def := strings.TrimSpace(elem)
-		// 'hello' = 1
-		left, right, hascomma := strings.Cut(def, "=")
-		if !hascomma {
-			return errors.Errorf("bad enum definition %q", def)
+	if strings.TrimSpace(elements) == "" {
+		return errors.Errorf("bad enum definition %q", elements)
+	}
+	for i := 0; i < len(elements); {
+		// Name, quoted (with escapes) or bare.
+		for i < len(elements) && elements[i] == ' ' {
+			i++
 		}
-		left = strings.TrimSpace(left)   // 'hello'
-		right = strings.TrimSpace(right) // 1
+		var name string
+		if i < len(elements) && elements[i] == '\'' {
+			var (
+				b      strings.Builder
+				closed bool
+			)
+			for i++; i < len(elements); i++ {
+				ch := elements[i]
+				if ch == '\\' && i+1 < len(elements) {
+					i++
+					b.WriteByte(unescapeEnumChar(elements[i]))
+					continue
+				}
+				if ch == '\'' {
+					closed = true
+					i++
+					break
+				}
+				b.WriteByte(ch)
+			}
+			if !closed {
+				return errors.Errorf("bad enum definition %q: unterminated name", elements)
+			}
+			name = b.String()
+		} else {
+			end := strings.IndexAny(elements[i:], "=,")
+			if end < 0 {
+				return errors.Errorf("bad enum definition %q", strings.TrimSpace(elements[i:]))
+			}
+			name = strings.TrimSpace(elements[i : i+end])
+			i += end
+		}
+		// Value.
+		for i < len(elements) && elements[i] == ' ' {
+			i++
+		}
+		if i >= len(elements) || elements[i] != '=' {
+			return errors.Errorf("bad enum definition %q", name)
+		}
+		i++
+		end := strings.IndexByte(elements[i:], ',')
+		if end < 0 {
+			end = len(elements) - i
+		}
+		right := strings.TrimSpace(elements[i : i+end])
 		idx, err := strconv.Atoi(right)
 		if err != nil {
 			return errors.Errorf("bad right side of definition %q", right)
 		}
-		left = strings.TrimFunc(left, func(c rune) bool {
-			return c == '\''
-		})
-		e.strToRaw[left] = idx
-		e.rawToStr[idx] = left
+		if i += end; i < len(elements) {
+			// Skip comma, definition should follow.
+			if i++; strings.TrimSpace(elements[i:]) == "" {
+				return errors.Errorf("bad enum definition %q: trailing comma", elements)
+			}
+		}
+
+		e.strToRaw[name] = idx
+		e.rawToStr[idx] = name
 	}
 	return nil
+}
+
+// unescapeEnumChar returns character for escape sequence \\c in enum name.
+func unescapeEnumChar(c byte) byte {
+	switch c {
+	case 'b':
+		return '\b'
+	case 'f':
+		return '\f'
+	case 'n':
+		return '\n'
+	case 'r':
+		return '\r'
+	case 't':
+		return '\t'
+	case '0':
+		return 0
+	default:
+		return c // \\, \', etc.
+	}
 }
 
 func (e *ColEnum) Infer(t ColumnType) error {
